@@ -466,11 +466,11 @@ pub fn c04(tier: &str, seed: u64) -> i32 {
             // string keys that are not valid UTF-8 (the key type accepts any bytes)
             let a = crate::props_a::Alpha { label: "2 keys x {5,40}", colliding: vec![5], other: vec![5], vals: vec![5, 40] };
             let mut cfg = crate::props_a::make_cfg("C04", KtId::Str, 1, &a, seed);
-            cfg.keys = vec![vec![0xFF, 0xFE, b'k'], vec![b'a', 0xC3], vec![0xE2, 0x82]];
-            cfg.init_vals = vec![None; 3];
+            cfg.keys = vec![vec![0xFF, 0xFE, b'k'], vec![b'a', 0xC3]];
+            cfg.init_vals = vec![None; 2];
             cfg.oracles = crate::engine_a::O_ITER;
             let starts: Vec<crate::engine_a::Start> = crate::props_a::empty_start(&mut ctx, &cfg).into_iter().collect();
-            crate::props_a::run_closure(&mut ctx, "3 string keys that are not valid UTF-8 x {5,40} [string, 1 bucket]", &cfg, starts, 100_000, 30.0);
+            crate::props_a::run_closure(&mut ctx, "2 string keys that are not valid UTF-8 x {5,40} [string, 1 bucket]", &cfg, starts, 100_000, 30.0);
         }
         // histories in which key records are relocated and chains re-linked (offsets crossing 16 KiB)
         let specs = vec![
